@@ -205,7 +205,13 @@ class PVLParser(object):
         self.doc = s
         self.errors = []
         tokens = self.lexer(s, g=self.grammar, d=self.decoder)
-        module = self.parse_module(tokens)
+        try:
+            module = self.parse_module(tokens)
+        except StopIteration:
+            raise ParseError(
+                "Ran out of tokens before the text was completely parsed "
+                "(a Statement or an Aggregation Block is incomplete)."
+            )
         module.errors = sorted(self.errors)
         return module
 
